@@ -284,6 +284,7 @@ class Run:
                         self.compacted = True
                         seen = {x: int(self.eng.cmd(f"!hits {x}").get("hits", 0)) for x in (A, B)}
                         self.eng.cmd(f"!park {A}"); self.eng.cmd(f"!park {B}")
+                        reclaimed0 = int(self.eng.cmd("!hits cp_reclaim_deleted").get("hits", 0))
                         self.eng.cmd("!bgcompact 0")
                         self.snaps = getattr(self, "snaps", [])
                         t_end = _t.time() + 25
@@ -308,7 +309,15 @@ class Run:
                             else:
                                 _t.sleep(0.005)
                         self.eng.cmd(f"!release {A}"); self.eng.cmd(f"!release {B}")
-                        self.eng.cmd("!joincompact"); self.eng.cmd("!sleep 40")
+                        jr = self.eng.cmd("!joincompact")
+                        if int(jr.get("plans", 0) or 0) > 0:
+                            # the reclaim of the drained inputs runs on a spawned task: wait until it reported (as the
+                            # synchronous !compact control does), else the observation can race it
+                            for _ in range(80):
+                                if int(self.eng.cmd("!hits cp_reclaim_deleted").get("hits", 0)) > reclaimed0:
+                                    break
+                                _t.sleep(0.025)
+                        self.eng.cmd("!sleep 40")
                         self.drain_trace()
                     elif op[0] == "JOINC":
                         self.eng.cmd("!joincompact"); self.eng.cmd("!sleep 40")
@@ -551,7 +560,11 @@ def compare_obs(impl_o, model_s, ntypes, nctx):
             diffs.append(f"sel{u}: impl {impl_o[f'sel{u}']} model {m.get(f'sel{u}')}")
         # COUNT while a flush is in flight is schedule dependent in the implementation (the two flows race);
         # the correspondence compares it at quiescent observations only (the property oracle still checks it)
-        if not impl_o.get("parked_at") and not fragile and not (stale_ok and impl_o[f"sel{u}"] != msel) \
+        # (a quiescent observation at which the model still has an unfinished flush job means the engine's flush
+        # failed after writing files - seen when a flush raced a compaction hand-over; the model has no account of
+        # a failed flush, so COUNT is left to the oracle there)
+        failed_flush = not impl_o.get("parked_at") and m.get("jobs", "0") not in ("0", "")
+        if not impl_o.get("parked_at") and not fragile and not failed_flush and not (stale_ok and impl_o[f"sel{u}"] != msel) \
                 and impl_o[f"cnt{u}"] != int(m.get(f"cnt{u}", "0") or 0):
             diffs.append(f"cnt{u}: impl {impl_o[f'cnt{u}']} model {m.get(f'cnt{u}')}")
     for u in range(ntypes):
